@@ -213,10 +213,14 @@ def w_align(ctx, rng, i):
         judge_common(ctx, t, t.source.points.copy(), t.target.points.copy(), "after_pseudoinverse")
     else:
         src = gen.general_position(rng, n, d)
+        if rng.random() < 0.3:
+            # any overall size and position: unit-normalised shapes, pixel coordinates of large images, far from the origin
+            sc = 10.0 ** rng.uniform(-2, 3)
+            src = src * sc + rng.uniform(-1, 1, d) * sc * 10.0 * 10.0 ** rng.uniform(0, 1.3)     # offset up to ~20x the extent (conditioning stays moderate)
         L, tr = family_member(rng, kind, d, opts)
         tgt = src @ L.T + tr
         if noise:
-            tgt = tgt + rng.normal(scale=noise, size=tgt.shape)
+            tgt = tgt + rng.normal(scale=noise * max(1e-3, float(np.abs(src - src.mean(0)).max()) / 10.0), size=tgt.shape)
         if kind in ("AlignmentRotation", "AlignmentSimilarity") and rng.random() < 0.3:
             # a target whose best orthogonal fit is a reflection
             tgt = tgt.copy()
@@ -230,7 +234,11 @@ def w_align(ctx, rng, i):
             e = max(np.abs(h[:d, :d] - L).max(), np.abs(h[:d, d] - tr).max())
             ctx.err("exact_recovery", e)
             ctx.tap("exact_recovery", "calls"); ctx.tap("exact_recovery", "checked")
-            if e > 1e-7 * max(1.0, np.abs(tr).max()) or t.alignment_error() > 1e-7 * max(1.0, np.abs(tgt).max()):
+            # the affine fit goes through the normal equations: allow for their conditioning
+            a_h = np.hstack([src, np.ones((len(src), 1))])
+            cond = np.linalg.cond(a_h / np.abs(a_h).max(axis=0))
+            rtol = max(1e-7, 1e-13 * cond ** 2)
+            if e > rtol * max(1.0, np.abs(tr).max(), np.abs(tgt).max()) or t.alignment_error() > rtol * max(1.0, np.abs(tgt).max()) * np.sqrt(len(src)):
                 ctx.fail("family_member_not_recovered", cls=kind, mech=str(sorted(opts.items())), err=float(e))
         # and a retarget with another synthesised target
         L2, tr2 = family_member(rng, kind, d, opts)
